@@ -89,7 +89,7 @@ mut("C05", "region-start-closed-at-node-end", VIEW, "x[2] <= q_e and q_s < x[3]"
 mut("C06", "no-traversal-reverse", ORDER,
     "        traversal.reverse()\n        traversal_scaffold_only.reverse()", "        traversal_scaffold_only.reverse()")
 mut("C06", "bubble-nodes-numeric-sort", ORDER,
-    "for i, n in enumerate(sorted(bubbles[int(node)])):", "for i, n in enumerate(sorted(bubbles[int(node)], key=lambda x: (len(x), x))):")
+    "for i, n in enumerate(sorted(bubbles[int(node.split(\" \")[1])])):", "for i, n in enumerate(sorted(bubbles[int(node.split(\" \")[1])], key=lambda x: (len(x), x))):")
 mut("C06", "bo-not-threaded-across-chromosomes", ORDER,
     "        if new_bo is not None:\n            bo = new_bo", "        if new_bo is not None:\n            bo = 0")
 mut("C06", "no-starts-at-zero-in-bubble", ORDER, "node_order[n] = (bo, i + 1)", "node_order[n] = (bo, i)")
